@@ -69,6 +69,19 @@ pin_project! {
     }
 }
 
+#[cfg(futures_buffered_verif)]
+impl<St> TryBufferedOrdered<St>
+where
+    St: TryStream,
+    St::Ok: TryFuture<Err = St::Err>,
+{
+    /// See [`FuturesOrderedBounded::__verif_set_position`]. Verification harness only.
+    #[doc(hidden)]
+    pub fn __verif_set_position(&mut self, start: usize) {
+        self.in_progress_queue.__verif_set_position(start);
+    }
+}
+
 impl<St> Stream for TryBufferedOrdered<St>
 where
     St: TryStream,
